@@ -353,3 +353,113 @@ Definition wfree (lb d lo hi : Z) : world :=
     (fun o b cur p => [8; fst p; snd p] ++ enc_tv cur ++ b ++ o)
     (fun g cur ns => [9; ns] ++ enc_tv cur ++ g)
     (fun vw sf cs x => [v_data vw; v_isrc vw; match sf with None => -1 | Some s => s end; cs; x]).
+
+(* ------------------------------------------------------------------------
+   Two datasets: MultiDatasetTCLLHRatio over two ZeroSigH0SingleDatasetTCLLHRatio
+   machines (each with its own TrialDataManager, PDFs and caches), optionally
+   wrapped by NsProfileMultiDatasetTCLLHRatio with its remembered
+   null-hypothesis value _logL_0. *)
+Record mworld (W : world) := mkmworld {
+  MOut : Type;                                   (* (log_lambda, grads) of the multi-dataset function *)
+  MOut2 : Type;
+  nsf : src W -> Z -> Z -> Z;                    (* ns * f_j, f from the DatasetSignalWeightFactorsService (source dependent) *)
+  mfin : Out W -> Out W -> src W -> Z * Z -> MOut;
+  mg2 : Out2 W -> Out2 W -> src W -> Z -> MOut2;
+  psub : MOut -> MOut -> MOut }.                 (* logL - _logL_0, gradients of logL *)
+Arguments MOut {W} _.
+Arguments MOut2 {W} _.
+Arguments nsf {W} _ _ _ _.
+Arguments mfin {W} _ _ _ _ _.
+Arguments mg2 {W} _ _ _ _ _.
+Arguments psub {W} _ _ _.
+
+Record mcfg := mkmcfg {
+  m_profile : bool;      (* NsProfileMultiDatasetTCLLHRatio on top *)
+  m_ns0 : Z;             (* mean_n_sig_0 *)
+  m_x0 : Z }.            (* value of the (then fixed) interpolation parameter *)
+
+Section Multi.
+Variable W : world.
+Variable C : cfg.
+Variable MW : mworld W.
+Variable MC : mcfg.
+
+Record mstate := mkm {
+  m1 : state W;                      (* dataset 0 *)
+  m2 : state W;                      (* dataset 1 *)
+  m_l0 : option (MOut MW);           (* NsProfileMultiDatasetTCLLHRatio._logL_0 *)
+  m_wsrc : option (src W) }.         (* the weight factors f of the last evaluation (services keep them) *)
+
+Definition minit (s0 : src W) : mstate := mkm (init W C s0) (init W C s0) None None.
+
+(* MultiDatasetTCLLHRatio.evaluate *)
+Definition meval2 (s : mstate) (ns x : Z) : mstate * res (MOut MW) * list tr :=
+  let cur := s_cur (m1 s) in
+  let '(a, r1, t1) := evaluate W C (m1 s) (nsf MW cur 0 ns) x in
+  match r1 with
+  | Err e => (mkm a (m2 s) (m_l0 s) (Some cur), Err e, t1)
+  | Ok o1 =>
+    let '(b, r2, t2) := evaluate W C (m2 s) (nsf MW cur 1 ns) x in
+    match r2 with
+    | Err e => (mkm a b (m_l0 s) (Some cur), Err e, t1 ++ t2)
+    | Ok o2 => (mkm a b (m_l0 s) (Some cur), Ok (mfin MW o1 o2 cur (ns, x)), t1 ++ t2)
+    end
+  end.
+
+Inductive mop := MInit (d1 d2 : data W) | MEval (ns x : Z) | MSrc (s : src W) | MNs2 (n : Z).
+Inductive mobs := MInitO (r : res Z) | MNone | MEvalO (r : res (MOut MW)) | MNs2O (r : res (MOut2 MW)).
+
+Definition mstep (s : mstate) (o : mop) : mstate * mobs * list tr :=
+  match o with
+  | MInit d1 d2 =>
+      (* every TrialDataManager.initialize_trial, then initialize_for_new_trial
+         down the cascade; the ns-profile function then evaluates the
+         null-hypothesis value for the new trial *)
+      let s1 := mkm (init_trial W C (m1 s) d1) (init_trial W C (m2 s) d2) (m_l0 s) (m_wsrc s) in
+      if m_profile MC then
+        let '(s2, r, t) := meval2 s1 (prof_logL0_arg (prof_logL0_point (m_ns0 MC))) (m_x0 MC) in
+        match r with
+        | Ok v => (mkm (m1 s2) (m2 s2) (Some v) (m_wsrc s2), MInitO (Ok 0), t)
+        | Err e => (s2, MInitO (Err e), t)
+        end
+      else (s1, MInitO (Ok 0), [])
+  | MEval ns x =>
+      let '(s', r, t) := meval2 s ns x in
+      (s', MEvalO (if m_profile MC then
+                     match r with
+                     | Ok v => match m_l0 s' with Some l => Ok (psub MW v l) | None => Err TypeError end
+                     | Err e => Err e
+                     end
+                   else r), t)
+  | MSrc sr => (mkm (change_source W C (m1 s) sr) (change_source W C (m2 s) sr) (m_l0 s) (m_wsrc s), MNone, [])
+  | MNs2 n =>
+      (s, MNs2O (match m_wsrc s with
+                 | None => Err AttributeError
+                 | Some ws =>
+                   match ns_grad2 W (m1 s) (nsf MW ws 0 n) with
+                   | Err e => Err e
+                   | Ok a => match ns_grad2 W (m2 s) (nsf MW ws 1 n) with
+                             | Err e => Err e
+                             | Ok b => Ok (mg2 MW a b ws n)
+                             end
+                   end
+                 end), [])
+  end.
+
+Fixpoint mrun (s : mstate) (ops : list mop) : list (mobs * list tr * (Z * Z)) :=
+  match ops with
+  | [] => []
+  | o :: r => let '(s', ob, t) := mstep s o in (ob, t, (s_sid (m1 s'), s_sid (m2 s'))) :: mrun s' r
+  end.
+
+Definition mobservations (s : mstate) (ops : list mop) : list mobs :=
+  map (fun x => fst (fst x)) (mrun s ops).
+
+End Multi.
+
+Definition mwfree (lb d lo hi : Z) : mworld (wfree lb d lo hi) :=
+  mkmworld (wfree lb d lo hi) (list Z) (list Z)
+    (fun cs j ns => ns * 1000 + cs * 10 + j)
+    (fun o1 o2 cs p => [20; cs; fst p; snd p] ++ o1 ++ o2)
+    (fun a b cs n => [21; cs; n] ++ a ++ b)
+    (fun v l => 22 :: v ++ l).
